@@ -244,3 +244,11 @@ func coqTuple(xs ...string) string { return "(" + strings.Join(xs, ", ") + ")" }
 
 // Q literal from a float that is an exact small rational is avoided: floats are passed as
 // (mantissa, exponent) pairs, see floatCoq in num.go.
+
+// repoRoot is the d2 source tree the harness was built against (for reading test data files).
+func repoRoot() string {
+	if r := os.Getenv("VERIF_REPO"); r != "" {
+		return r
+	}
+	return "/repo"
+}
